@@ -124,6 +124,10 @@ func vfC13Scenarios() []vfC13Scn {
 		{name: "Accept/deadline-set-before", target: "listener", calls: []vfCall{A(0, 50*ms, "timeout", 50*ms, 50*ms+slack)}},
 		{name: "Accept/deadline-set-while-blocked", target: "listener", calls: []vfCall{A(0, 0, "timeout", 50*ms, 50*ms+slack)}, events: []vfEv{{10 * ms, "SetListenerDeadline", 40 * ms}}},
 		{name: "Accept/deadline-extended-while-blocked", target: "listener", calls: []vfCall{A(0, 50*ms, "timeout", 100*ms, 100*ms+slack)}, events: []vfEv{{10 * ms, "SetListenerDeadline", 90 * ms}}},
+		{name: "Accept/deadline-shortened-while-blocked", target: "listener", calls: []vfCall{A(0, 100*ms, "timeout", 30*ms, 30*ms+slack)}, events: []vfEv{{10 * ms, "SetListenerDeadline", 20 * ms}}},
+		{name: "Accept/deadline-cleared-while-blocked", target: "listener", calls: []vfCall{A(0, 50*ms, "session", 200*ms, 200*ms+slack)}, events: []vfEv{{10 * ms, "SetListenerDeadline", 0}, {200 * ms, "hello", 0}}},
+		{name: "Accept/deadline-moved-to-the-past-while-blocked", target: "listener", calls: []vfCall{A(0, 100*ms, "timeout", 10*ms, 10*ms+slack)}, events: []vfEv{{10 * ms, "SetListenerDeadline", -5 * ms}}},
+		{name: "Accept/two-acceptors-deadline-set-while-blocked", target: "listener", calls: []vfCall{A(0, 0, "timeout", 50*ms, 50*ms+slack), A(0, 0, "timeout", 50*ms, 50*ms+slack)}, events: []vfEv{{10 * ms, "SetListenerDeadline", 40 * ms}}},
 		{name: "Accept/close-while-blocked", target: "listener", calls: []vfCall{A(0, 0, "closed", 15*ms, 15*ms+slack)}, events: []vfEv{{15 * ms, "CloseListener", 0}}},
 		{name: "Accept/socket-error-while-blocked", target: "listener", calls: []vfCall{A(0, 0, "error", 15*ms, 15*ms+slack)}, events: []vfEv{{15 * ms, "listenerreaderr", 0}}},
 		{name: "Accept/two-acceptors-two-peers", target: "listener", calls: []vfCall{A(0, 0, "session", 20*ms, 25*ms+slack), A(0, 0, "session", 20*ms, 25*ms+slack)}, events: []vfEv{{20 * ms, "hello", 0}, {25 * ms, "hello2", 0}}},
